@@ -474,11 +474,36 @@ def gen_history(rng, langs, mixed, nsteps=None):
     # the first overwriting run is frequently preceded by nothing but the initial files; make sure --no-overwrite
     # meets both empty and populated trees
     h = {"stream": "cli", "umask": rng.choice([0o022, 0o022, 0o027, 0o077, 0o002]), "steps": steps, "init": [], "stale": rng.choice(["none", "some", "some", "all"]),
-         "stale_modes": [rng.choice(MODES) for _ in range(16)], "stale_pick": [rng.random() for _ in range(16)]}
+         "stale_modes": [rng.choice(MODES) for _ in range(16)], "stale_pick": [rng.random() for _ in range(16)],
+         "derived_pick": [rng.random() for _ in range(37)], "derived_modes": [rng.choice(MODES) for _ in range(23)],
+         "derived_rate": rng.choice([0.0, 0.15, 0.3, 0.3, 1.0])}
     for rel in FOREIGN:
         if rng.random() < 0.45:
             h["init"].append([rel, f"foreign {rel}\n", rng.choice(MODES)])
     return h
+
+
+DERIVED = [lambda p: p + ".tmp", lambda p: p + ".bak", lambda p: p + ".orig", lambda p: p + "~", lambda p: p + ".new",
+           lambda p: p + ".lock", lambda p: os.path.join(os.path.dirname(p), "." + os.path.basename(p)),
+           lambda p: os.path.join(os.path.dirname(p), "." + os.path.basename(p) + ".swp"),
+           lambda p: p + ".d/keep.txt", lambda p: os.path.splitext(p)[0] + "/keep.txt", lambda p: os.path.splitext(p)[0] + ".tmp"]
+
+
+def add_derived(h, paths):
+    """Foreign files whose names are derived from output names (scratch/backup/lock names a generator might be tempted to
+    use, and the output name as a directory prefix): a run must leave them alone like any other foreign file."""
+    pick = h.get("derived_pick")
+    if not pick:
+        return
+    have = {r for r, _, _ in h["init"]} | set(paths)
+    k = 0
+    for p in paths:
+        for f in DERIVED:
+            k += 1
+            q = f(p)
+            if pick[k % len(pick)] < h.get("derived_rate", 0.25) and q not in have and not any(q.startswith(x + "/") for x in have):
+                have.add(q)
+                h["init"].append([q, f"foreign, named after {p}\n", h["derived_modes"][k % len(h["derived_modes"])]])
 
 
 def add_stale(h, paths):
@@ -576,7 +601,9 @@ def do_cli(ctx, drv, histories, pool):
         others = []
         for c in h["steps"][1:]:
             others += cli.reference(plain_cfg(c), h["umask"])["order"]
-        add_stale(h, first["order"] + [p for p in others if p not in first["order"]])
+        allp = first["order"] + [p for p in others if p not in first["order"]]
+        add_stale(h, allp)
+        add_derived(h, allp)
     # 2. the histories on the real CLI (parallel)
     results = list(pool.map(cli.run_history, histories))
     # 3. the model
